@@ -163,6 +163,7 @@ def run(ctx, R, tier):
     R.check(bool(oa) and bool(ob) and len(oa) == 1 and len(ob) == 1 and shape(oa[0]) == shape(ob[0]), 'B.C09.sib', 'output',
             'output expressions differ: %s vs %s' % (oa, ob), detail={'shape': shape(oa[0]) if oa else None})
 
+    frame_source(F, R)
     # read_commands siblings
     ra = F.body(ST + '::read_commands')
     rb = F.body(SS + '::read_commands')
@@ -201,3 +202,34 @@ def shape(d):
     m = re.match(r'frame::Frame::panned\(<frame::Frame as std::ops::Mul<f32>>::mul\(<frame::Frame as std::ops::Mul<f32>>::mul\((.*)\)$', d)
     ops = re.findall(r'frame::Frame::panned|Mul<f32>>::mul|as_amplitude|interpolated_fade_volume|interpolated_value', d)
     return ops
+
+
+def frame_source(F, R):
+    """DecodeScheduler::frame_at_index: Frame::ZERO is produced only for an index past the end of the audio; every other
+    frame comes out of a decoded chunk (no frame is invented, whatever the packet sizes)."""
+    b = F.body('sound::streaming::sound::decode_scheduler::DecodeScheduler::<Error>::frame_at_index')
+    if not R.check(b is not None, 'B.C09.frame', 'anchor', 'DecodeScheduler::frame_at_index not found'):
+        return
+    ok = True
+    why = ''
+    kinds = set()
+    for p in explore(b):
+        if p.end != 'return':
+            continue
+        ret = str(p.ret)
+        if not ret.startswith('std::result::Result::Ok('):
+            kinds.add('err')
+            continue
+        past_end = any(desc.startswith('Ge(index, Sub(') and bool_label(lab) is True for _, desc, lab in p.decisions)
+        if 'const frame::Frame::ZERO' in ret:
+            kinds.add('zero')
+            if not past_end:
+                ok = False
+                why = 'silence (Frame::ZERO) is returned on a path where the index was not past the end of the audio'
+        else:
+            kinds.add('frame')
+            if 'DecodedChunk::frame_at_index' not in ret and 'as Some' not in ret:
+                ok = False
+                why = 'a frame is returned that does not come out of a decoded chunk: %s' % ret[:100]
+    R.check(ok and {'zero', 'frame'} <= kinds, 'B.C09.frame', 'frame_at_index', why or 'outcomes %s' % sorted(kinds),
+            detail={'outcomes': sorted(kinds)}, where=b.file)
